@@ -26,39 +26,27 @@ Theorem fmt_compat : compat F_prql P_prql nbin nun = true.
 Proof. vm_compute. reflexivity. Qed.
 Print Assumptions fmt_compat.
 
-(* ---- expressions (Theta-1, instance 3).
-   Full statement (FALSE of the unchanged tree -- finding C14-range-pow-leak):
-     forall e, wf_expr e -> exists f0, forall f, f0 <= f -> parse_prql f (fmt_toks e) = Some e *)
-Theorem fmt_expr_roundtrip_refuted :
-  exists e, wf e = true /\ ops_ok nbin nun e = true /\ is_named e = false /\
-            forall f, parse_prql f (fmt_toks e) <> Some e.
-Proof. exact expr_roundtrip_refuted. Qed.
-Print Assumptions fmt_expr_roundtrip_refuted.
-
-(* generic in the tables: any formatter / parser tables that pass `compat` round-trip every tree outside the leak class *)
+(* ---- expressions (Theta-1, instance 3), at full strength since commit a318687 (binary_position no longer leaks below
+        non-binary nodes; the former counterexample a + ((b ** c)..d) is Example ex_former_leak below).
+   Generic in the tables: any formatter / parser tables that pass `compat` round-trip every well-formed tree. *)
 Theorem fmt_expr_roundtrip_generic : forall F T nb nu, compat F T nb nu = true ->
-  forall e, wf e = true -> ops_ok nb nu e = true -> is_named e = false -> leak F e PUnspec = false ->
+  forall e, wf e = true -> ops_ok nb nu e = true -> is_named e = false ->
   exists f0, forall f, (f0 <= f)%nat -> parse T f (fmt_top F e) = Some e.
 Proof. exact (fun F T nb nu H => roundtrip F T nb nu (compat_sound F T nb nu H)). Qed.
 Print Assumptions fmt_expr_roundtrip_generic.
 
-Theorem fmt_expr_roundtrip_partial :
-  forall e, wf e = true -> ops_ok nbin nun e = true -> is_named e = false -> leak F_prql e PUnspec = false ->
+Theorem fmt_expr_roundtrip :
+  forall e, wf e = true -> ops_ok nbin nun e = true -> is_named e = false ->
   exists f0, forall f, (f0 <= f)%nat -> parse_prql f (fmt_toks e) = Some e.
 Proof. exact (roundtrip F_prql P_prql nbin nun (compat_sound _ _ _ _ fmt_compat)). Qed.
-Print Assumptions fmt_expr_roundtrip_partial.
+Print Assumptions fmt_expr_roundtrip.
 
-(* ---- idempotence: fmt (parse (fmt t)) = fmt t.   Full statement false for the same class. *)
-Theorem fmt_idempotent_refuted :
-  exists e f e', wf e = true /\ ops_ok nbin nun e = true /\ parse_prql f (fmt_toks e) = Some e' /\ fmt_toks e' <> fmt_toks e.
-Proof. exact idempotent_refuted. Qed.
-Print Assumptions fmt_idempotent_refuted.
-
-Theorem fmt_idempotent_partial :
-  forall e, wf e = true -> ops_ok nbin nun e = true -> is_named e = false -> leak F_prql e PUnspec = false ->
+(* ---- idempotence: fmt (parse (fmt t)) = fmt t *)
+Theorem fmt_idempotent :
+  forall e, wf e = true -> ops_ok nbin nun e = true -> is_named e = false ->
   forall f e', parse_prql f (fmt_toks e) = Some e' -> fmt_toks e' = fmt_toks e.
 Proof. exact (idempotent F_prql P_prql nbin nun (compat_sound _ _ _ _ fmt_compat)). Qed.
-Print Assumptions fmt_idempotent_partial.
+Print Assumptions fmt_idempotent.
 
 (* more fuel never changes a parse: the `exists f0` above is not an artefact of the fuel *)
 Theorem parse_fuel_monotone : forall f g ts e, (f <= g)%nat -> parse_prql f ts = Some e -> parse_prql g ts = Some e.
@@ -91,27 +79,24 @@ Theorem fmt_float_roundtrip_partial : forall m e,
 Proof. exact float_roundtrip. Qed.
 Print Assumptions fmt_float_roundtrip_partial.
 
-(* ---- strings: quote_string (escape_all_except_quotes s), then multi_quoted_string with escapes.
-   Full statement (FALSE -- finding C14-string-quote-edge):
-     forall s, forallb valid_scalar s = true -> lex_string (fmt_string s) = Some (s, []) *)
-Theorem fmt_string_roundtrip_refuted : exists s, forallb valid_scalar s = true /\ lex_string (fmt_string s) <> Some (s, []).
-Proof. exact string_refuted. Qed.
-Print Assumptions fmt_string_roundtrip_refuted.
-
-Theorem fmt_string_roundtrip_partial : forall s,
-  forallb valid_scalar s = true -> quote_edge (escape_all_except_quotes s) = false ->
-  lex_string (fmt_string s) = Some (s, []).
+(* ---- strings: quote_string (escape_all_except_quotes s), then multi_quoted_string with escapes; for ALL strings of
+        Unicode scalar values since commit 5e36fe1 (content that starts or ends with the chosen quote is written with
+        its double quotes escaped) *)
+Theorem fmt_string_roundtrip : forall s,
+  forallb valid_scalar s = true -> lex_string (fmt_string s) = Some (s, []).
 Proof. exact string_roundtrip. Qed.
-Print Assumptions fmt_string_roundtrip_partial.
+Print Assumptions fmt_string_roundtrip.
 
 Theorem fmt_raw_string_roundtrip : forall s, forallb raw_ok s = true -> lex_raw (fmt_raw s) = Some (s, []).
 Proof. exact raw_roundtrip. Qed.
 Print Assumptions fmt_raw_string_roundtrip.
 
-(* ---- identifiers.  Table obligation on the generated classes / keyword list, then the two printers:
-        write_ident_part (aliases, parameters, import paths) and display_ident_part (identifier expressions).
-   Rust's char::is_alphabetic / is_alphanumeric enter only through their ASCII restriction and one inclusion.
-   Full statements (FALSE -- findings F11-ident-keyword, C14-ident-dollar): the same without `*_known s = false`. *)
+(* ---- identifiers.  Table obligation on the generated classes / keyword lists (bare classes within the lexer's plain
+        identifiers; every lexer keyword and true/false/null in both printers' reserved lists), then the two printers:
+        display_ident_part (identifier expressions): full strength since commit 8417a86;
+        write_ident_part (aliases, parameters, declared names, argument names): every name except the wildcard `*`,
+        which valid_prql_ident still leaves bare (finding C14-ident-star-bare).
+   Rust's char::is_alphabetic / is_alphanumeric enter only through their ASCII restriction and one inclusion. *)
 Theorem fmt_ident_tables : idtab_ok I_prql = true.
 Proof. vm_compute. reflexivity. Qed.
 Print Assumptions fmt_ident_tables.
@@ -122,47 +107,40 @@ Section UnicodeClasses.
   Hypothesis ascii_alnum : forall c, c < 128 -> is_alnum c = in_ranges alnum_ascii c.
   Hypothesis alpha_alnum : forall c, is_alpha c = true -> is_alnum c = true.
 
-  Theorem fmt_ident_roundtrip_partial : forall s rest,
-    contains c_backtick s = false -> write_known I_prql s = false -> delim is_alnum rest ->
-    lex_word is_alpha is_alnum I_prql (write_ident_part I_prql s ++ rest) = Some (WIdent s, rest).
-  Proof. exact (write_ident_lexes is_alpha is_alnum ascii_alpha ascii_alnum alpha_alnum I_prql fmt_ident_tables). Qed.
-
-  Theorem fmt_expr_ident_roundtrip_partial : forall s rest,
-    contains c_backtick s = false -> display_known I_prql s = false -> delim is_alnum rest ->
+  Theorem fmt_expr_ident_roundtrip : forall s rest,
+    contains c_backtick s = false -> delim is_alnum rest ->
     lex_word is_alpha is_alnum I_prql (display_ident_part I_prql s ++ rest) = Some (WIdent s, rest).
   Proof. exact (display_ident_lexes is_alpha is_alnum ascii_alpha ascii_alnum alpha_alnum I_prql fmt_ident_tables). Qed.
-End UnicodeClasses.
-Print Assumptions fmt_ident_roundtrip_partial.
-Print Assumptions fmt_expr_ident_roundtrip_partial.
 
-(* alias `import` is printed bare and lexes as a keyword; identifier `true` is printed bare and lexes as a boolean *)
+  (* full statement (FALSE, C14-ident-star-bare): the same without `is_star s = false` *)
+  Theorem fmt_ident_roundtrip_partial : forall s rest,
+    contains c_backtick s = false -> is_star s = false -> delim is_alnum rest ->
+    lex_word is_alpha is_alnum I_prql (write_ident_part I_prql s ++ rest) = Some (WIdent s, rest).
+  Proof. exact (write_ident_lexes is_alpha is_alnum ascii_alpha ascii_alnum alpha_alnum I_prql fmt_ident_tables). Qed.
+End UnicodeClasses.
+Print Assumptions fmt_expr_ident_roundtrip.
+Print Assumptions fmt_ident_roundtrip_partial.
+
 Theorem fmt_ident_roundtrip_refuted :
   exists s, contains c_backtick s = false /\
     lex_word ascii_alpha_f ascii_alnum_f I_prql (write_ident_part I_prql s ++ [32]) <> Some (WIdent s, [32]).
 Proof. exact write_ident_refuted. Qed.
 Print Assumptions fmt_ident_roundtrip_refuted.
 
-Theorem fmt_expr_ident_roundtrip_refuted :
-  exists s, contains c_backtick s = false /\
-    lex_word ascii_alpha_f ascii_alnum_f I_prql (display_ident_part I_prql s ++ [32]) <> Some (WIdent s, [32]).
-Proof. exact display_ident_refuted. Qed.
-Print Assumptions fmt_expr_ident_roundtrip_refuted.
-
-(* non-vacuity: concrete trees satisfy the hypotheses, and one of them is in the leak class *)
-Example ex_wf_tree : wf_expr (EBin 5 (idn 97) (EUn 0 (idn 98))) /\ leak F_prql (EBin 5 (idn 97) (EUn 0 (idn 98))) PUnspec = false.
+(* non-vacuity and regression: concrete trees satisfy the hypotheses; the former counterexamples now round-trip *)
+Example ex_wf_tree : wf_expr (EBin 5 (idn 97) (EUn 0 (idn 98))).
 Proof. vm_compute. repeat split; reflexivity. Qed.
-Example ex_leak_tree : leak F_prql leak_witness PUnspec = true.
-Proof. vm_compute. reflexivity. Qed.
+Example ex_former_leak : wf_expr leak_witness /\ parse_prql 40 (fmt_toks leak_witness) = Some leak_witness.
+Proof. vm_compute. repeat split; reflexivity. Qed.
 Example ex_roundtrip : parse_prql 40 (fmt_toks (ECall (idn 102) [ENamed [110] (idn 97); EUn 0 (idn 98); EGroup GTup [EAlias [120] (EBin 0 (idn 99) (idn 100))]]))
                        = Some (ECall (idn 102) [ENamed [110] (idn 97); EUn 0 (idn 98); EGroup GTup [EAlias [120] (EBin 0 (idn 99) (idn 100))]]).
 Proof. vm_compute. reflexivity. Qed.
-
-(* the hypotheses of the literal theorems are satisfiable: an ordinary alias, an escaped string, a fraction *)
-Example ex_ident_ok : write_known I_prql [97; 95; 49] = false /\ display_known I_prql [97; 95; 49] = false.
+Example ex_former_quote_edge : fmt_string [39; 34] = [34; 39; 92; 34; 34] /\ lex_string (fmt_string [39; 34]) = Some ([39; 34], []).
 Proof. vm_compute. split; reflexivity. Qed.
-Example ex_string_ok : quote_edge (escape_all_except_quotes [105; 116; 39; 115; 32; 34; 120; 34; 10]) = false
-  /\ lex_string (fmt_string [105; 116; 39; 115; 32; 34; 120; 34; 10]) = Some ([105; 116; 39; 115; 32; 34; 120; 34; 10], []).
-Proof. vm_compute. split; reflexivity. Qed.
+Example ex_former_keyword_idents :
+  display_ident_part I_prql w_true = bt w_true /\ write_ident_part I_prql [105; 109; 112; 111; 114; 116] = bt [105; 109; 112; 111; 114; 116]
+  /\ display_ident_part I_prql [36; 97] = bt [36; 97].
+Proof. vm_compute. repeat split; reflexivity. Qed.
 Example ex_float_ok : flt_wf (FFin 15 (-1)) = true /\ float_prints_as_int (FFin 15 (-1)) = false /\ fmt_float (FFin 15 (-1)) = [49; 46; 53].
 Proof. vm_compute. repeat split; reflexivity. Qed.
 Example ex_unicode_classes :
